@@ -113,6 +113,7 @@ def h_migration_converts_what_it_loaded(ctx):
     """the migration entry point converts exactly the rules it loaded from the CSV file: the list handed to csv_to_merchants_content is the value
     load_merchant_rules returned (not a filtered, de-duplicated or re-ordered derivative), and it is loaded from the file being migrated"""
     from props import C15
+    C15.set_config_dir('config')
     fs, result, state = C15.run_migration(ctx, dict(C15.FS(False).files), 'none', 'wiring')
     loaded = [o for o in fs.observed if o[0] == 'loaded']
     conv = [o for o in fs.observed if o[0] == 'converted']
